@@ -266,39 +266,114 @@ fn case_doc(i: usize, c: &FileCase) -> Value {
     json!({"check": "C16", "case_index": i, "label": c.label, "bytes": match &c.kind { PathKind::File(b) => json!(b), _ => Value::Null }})
 }
 
-fn eval_case(i: usize, c: &FileCase, dir: &Path, t: &mut Tally) {
-    let path = materialise(c, dir);
-    let cpath = CString::new(path.to_str().unwrap()).unwrap();
-    let exp = reference(&c.kind);
-    t.n += 1;
-    *t.classes.entry(format!("{exp:?}").split('(').next().unwrap().to_string()).or_insert(0) += 1;
-    if exp != Expect::Open {
-        t.nontrivial += 1;
+type OpenObs = Result<(), (&'static str, i32, String)>;
+
+fn obs_json(r: &OpenObs) -> Value {
+    match r {
+        Ok(()) => json!({"ok": true}),
+        Err((k, e, d)) => json!({"kind": k, "errno": e, "detail": d}),
     }
-    // (a) opening
-    let r1: Result<(), (&'static str, i32, String)> = match ShmReader::new(&cpath) {
+}
+fn obs_from(v: &Value) -> OpenObs {
+    if v["ok"] == true {
+        return Ok(());
+    }
+    let k = match v["kind"].as_str().unwrap_or("") {
+        "syscall" => "syscall",
+        "not_initialized" => "not_initialized",
+        "malformed" => "malformed",
+        "causality" => "causality",
+        _ => "other",
+    };
+    Err((k, v["errno"].as_i64().unwrap_or(0) as i32, v["detail"].as_str().unwrap_or("").to_string()))
+}
+
+/// what a client sees when it opens the path: [ShmReader::new, ClockBoundClient::new_with_path]
+fn client_open(path: &Path) -> Value {
+    let cpath = CString::new(path.to_str().unwrap()).unwrap();
+    let r1: OpenObs = match ShmReader::new(&cpath) {
         Ok(_) => Ok(()),
         Err(e) => Err(shm_kind(&e)),
     };
-    if !matches(exp, &r1) {
-        t.add(&format!("C16:open:{}", match exp { Expect::Open | Expect::OpenOrMalformed => "valid-refused", Expect::Syscall(_) => "wrong-syscall-error", _ => if r1.is_ok() { "invalid-accepted" } else { "wrong-kind" } }), format!("{}: the documented rules say {exp:?}, ShmReader::new returned {r1:?}", c.label), case_doc(i, c));
-    }
-    if let Err((_, _, d)) = &r1 {
-        if let Expect::Syscall(_) = exp {
-            if d.is_empty() {
-                t.add("C16:open:syscall-without-detail", format!("{}: system call error without the name of the call", c.label), case_doc(i, c));
-            }
-        }
-    }
-    let r2 = match ClockBoundClient::new_with_path(path.to_str().unwrap()) {
+    let r2: OpenObs = match ClockBoundClient::new_with_path(path.to_str().unwrap()) {
         Ok(_) => Ok(()),
         Err(e) => match client_err(e) {
             Obs::Err { kind, errno, detail } => Err((kind, errno, detail)),
             _ => unreachable!(),
         },
     };
+    json!([obs_json(&r1), obs_json(&r2)])
+}
+
+/// what a new client sees after the daemon's start-up and first publication of `rec`: a list of [signature, text]
+fn client_after_publication(path: &Path, rec: &Rec, label: &str) -> Value {
+    let cpath = CString::new(path.to_str().unwrap()).unwrap();
+    let mut out: Vec<Value> = vec![];
+    match ShmReader::new(&cpath) {
+        Err(e) => out.push(json!(["C16:not-openable-after-publication", format!("{label}: after the daemon's start-up and first publication ShmReader::new fails with {:?}", shm_kind(&e))])),
+        Ok(mut r) => match r.snapshot() {
+            Ok(got) if Rec::from_ceb(got) == *rec => {}
+            Ok(got) => out.push(json!(["C16:read-back-differs", format!("{label}: published {} but a new client reads {}", rec.json(), Rec::from_ceb(got).json())])),
+            Err(e) => out.push(json!(["C16:read-back-fails", format!("{label}: snapshot() after publication fails with {:?}", shm_kind(&e))])),
+        },
+    }
+    // the Rust client library agrees
+    vclock::arm(VClock { real_ns: 1_700_000_000_000_000_000, mono_ns: 5001_000_000_000, auto_advance_ns: 0, fail_errno: 0, fail_clock: -1 });
+    let want = rec.to_ceb().now();
+    let got = ClockBoundClient::new_with_path(path.to_str().unwrap()).and_then(|mut cl| cl.now());
+    vclock::disarm();
+    match (want, got) {
+        (Ok((e, l, s)), Ok(n)) if *n.earliest.as_ref() == e && *n.latest.as_ref() == l && n.clock_status == s => {}
+        (w, g) => out.push(json!(["C16:client-read-back-differs", format!("{label}: client library returns {:?}, the published record evaluates to {:?}", g.map(|n| (n.earliest, n.latest, n.clock_status)).map_err(|e| e.kind), w.map(|x| (x.0.tv_sec, x.0.tv_nsec, x.1.tv_sec, x.1.tv_nsec)))])),
+    }
+    Value::Array(out)
+}
+
+const CROSS_NOTE: &str = "[client runs as uid 65534 (not the owner of the file), no capabilities, RLIMIT_MEMLOCK 0; daemon as root] ";
+
+/// `cross`: the client-side steps run in an unprivileged child process (common/privdrop.rs); the daemon-side
+/// steps (and the creation of the pre-existing file) stay with the harness user. Same oracles.
+fn eval_case(i: usize, c: &FileCase, dir: &Path, t: &mut Tally, cross: bool) {
+    let path = materialise(c, dir);
+    let exp = reference(&c.kind);
+    let note = if cross { CROSS_NOTE } else { "" };
+    let doc = || {
+        let mut d = case_doc(i, c);
+        if cross {
+            d["environment"] = json!("cross-uid");
+        }
+        d
+    };
+    let client = |f: &dyn Fn() -> Value| -> Value {
+        if cross {
+            match crate::common::privdrop::run(f) {
+                Ok(v) => v,
+                Err(e) => crate::common::report::machinery_failure(&format!("C16 cross-uid phase, {}: {e}", c.label)),
+            }
+        } else {
+            f()
+        }
+    };
+    t.n += 1;
+    *t.classes.entry(format!("{exp:?}").split('(').next().unwrap().to_string()).or_insert(0) += 1;
+    if exp != Expect::Open {
+        t.nontrivial += 1;
+    }
+    // (a) opening
+    let o = client(&|| client_open(&path));
+    let (r1, r2) = (obs_from(&o[0]), obs_from(&o[1]));
+    if !matches(exp, &r1) {
+        t.add(&format!("C16:open:{}", match exp { Expect::Open | Expect::OpenOrMalformed => "valid-refused", Expect::Syscall(_) => "wrong-syscall-error", _ => if r1.is_ok() { "invalid-accepted" } else { "wrong-kind" } }), format!("{note}{}: the documented rules say {exp:?}, ShmReader::new returned {r1:?}", c.label), doc());
+    }
+    if let Err((_, _, d)) = &r1 {
+        if let Expect::Syscall(_) = exp {
+            if d.is_empty() {
+                t.add("C16:open:syscall-without-detail", format!("{note}{}: system call error without the name of the call", c.label), doc());
+            }
+        }
+    }
     if r1 != r2 {
-        t.add("C16:client-differs-from-reader", format!("{}: ShmReader::new {r1:?} but ClockBoundClient::new_with_path {r2:?}", c.label), case_doc(i, c));
+        t.add("C16:client-differs-from-reader", format!("{note}{}: ShmReader::new {r1:?} but ClockBoundClient::new_with_path {r2:?}", c.label), doc());
     }
     // (b) daemon start-up + first publication
     let was_usable = r1.is_ok();
@@ -307,44 +382,34 @@ fn eval_case(i: usize, c: &FileCase, dir: &Path, t: &mut Tally) {
     match ShmWriter::new(&path) {
         Err(e) => {
             if !matches!(c.kind, PathKind::Directory) {
-                t.add("C16:daemon-cannot-start", format!("{}: ShmWriter::new failed: {e}", c.label), case_doc(i, c));
+                t.add("C16:daemon-cannot-start", format!("{}: ShmWriter::new failed: {e}", c.label), doc());
             }
         }
         Ok(mut w) => {
             w.write(&rec.to_ceb());
-            match ShmReader::new(&cpath) {
-                Err(e) => t.add("C16:not-openable-after-publication", format!("{}: after the daemon's start-up and first publication ShmReader::new fails with {:?}", c.label, shm_kind(&e)), case_doc(i, c)),
-                Ok(mut r) => match r.snapshot() {
-                    Ok(got) if Rec::from_ceb(got) == rec => {}
-                    Ok(got) => t.add("C16:read-back-differs", format!("{}: published {} but a new client reads {}", c.label, rec.json(), Rec::from_ceb(got).json()), case_doc(i, c)),
-                    Err(e) => t.add("C16:read-back-fails", format!("{}: snapshot() after publication fails with {:?}", c.label, shm_kind(&e)), case_doc(i, c)),
-                },
-            }
-            // the Rust client library agrees
-            vclock::arm(VClock { real_ns: 1_700_000_000_000_000_000, mono_ns: 5001_000_000_000, auto_advance_ns: 0, fail_errno: 0, fail_clock: -1 });
-            let want = rec.to_ceb().now();
-            let got = ClockBoundClient::new_with_path(path.to_str().unwrap()).and_then(|mut cl| cl.now());
-            vclock::disarm();
-            match (want, got) {
-                (Ok((e, l, s)), Ok(n)) if *n.earliest.as_ref() == e && *n.latest.as_ref() == l && n.clock_status == s => {}
-                (w, g) => t.add("C16:client-read-back-differs", format!("{}: client library returns {:?}, the published record evaluates to {:?}", c.label, g.map(|n| (n.earliest, n.latest, n.clock_status)).map_err(|e| e.kind), w.map(|x| (x.0.tv_sec, x.0.tv_nsec, x.1.tv_sec, x.1.tv_nsec))), case_doc(i, c)),
+            let vs = client(&|| client_after_publication(&path, &rec, &c.label));
+            for v in vs.as_array().cloned().unwrap_or_default() {
+                t.add(v[0].as_str().unwrap_or("C16:?"), format!("{note}{}", v[1].as_str().unwrap_or("")), doc());
             }
             // layout of a segment the daemon had to re-create
-            let bytes = std::fs::read(&path).unwrap_or_default();
-            if !was_usable {
+            // (daemon-side oracles: judged in the same-user pass only, where `was_usable` is the daemon's own view)
+            let bytes = if cross { vec![] } else { std::fs::read(&path).unwrap_or_default() };
+            if cross {
+            } else if !was_usable {
                 let mut want = header(M0, M1, SEG as u32, 1, 0);
                 want.extend_from_slice(&record_bytes(&rec));
                 let gen = if bytes.len() >= 16 { u16::from_ne_bytes([bytes[14], bytes[15]]) } else { 0 };
                 if bytes.len() != SEG {
-                    t.add("C16:recreated-size", format!("{}: the re-created segment is {} bytes, documented: {SEG}", c.label, bytes.len()), case_doc(i, c));
+                    t.add("C16:recreated-size", format!("{}: the re-created segment is {} bytes, documented: {SEG}", c.label, bytes.len()), doc());
                 } else if bytes[..14] != want[..14] || bytes[16..68] != want[16..68] || gen == 0 || gen % 2 == 1 {
-                    t.add("C16:recreated-layout", format!("{}: the re-created segment is not laid out as documented: {:?}", c.label, bytes), case_doc(i, c));
+                    t.add("C16:recreated-layout", format!("{}: the re-created segment is not laid out as documented: {:?}", c.label, bytes), doc());
                 }
             } else if let Some(lb) = len_before {
                 if (bytes.len() as u64) < lb {
-                    t.add("C16:usable-segment-shrunk", format!("{}: a segment that could be opened was shrunk from {lb} to {} bytes", c.label, bytes.len()), case_doc(i, c));
+                    t.add("C16:usable-segment-shrunk", format!("{}: a segment that could be opened was shrunk from {lb} to {} bytes", c.label, bytes.len()), doc());
                 }
             }
+            drop(w);
         }
     }
     crate::seqmc::engine::close_leaked_fds(&path);
@@ -358,8 +423,9 @@ pub fn run(ctx: &Ctx) -> i32 {
         let doc: Value = serde_json::from_str(&std::fs::read_to_string(p).expect("replay file")).expect("json");
         let i = doc["case"]["case_index"].as_u64().unwrap() as usize;
         let mut t = Tally { n: 0, nontrivial: 0, classes: BTreeMap::new(), counts: BTreeMap::new(), kept: vec![] };
-        eval_case(i, &all[i], &base.join("replay"), &mut t);
-        println!("case {i}: {}", all[i].label);
+        let cross = doc["case"]["environment"] == "cross-uid";
+        eval_case(i, &all[i], &base.join("replay"), &mut t, cross);
+        println!("case {i}: {}{}", all[i].label, if cross { " (client steps as uid 65534, no capabilities, RLIMIT_MEMLOCK 0)" } else { "" });
         for v in &t.kept {
             println!("  {} :: {}", v.signature, v.text);
         }
@@ -368,10 +434,15 @@ pub fn run(ctx: &Ctx) -> i32 {
         }
         return 0;
     }
+    // SAFETY: process-wide, before any file is created: the modes of created files are part of the scenario
+    unsafe { libc::umask(0o022) };
+    // items 0..n: everything as the harness user; n..2n: the same cases with the client steps unprivileged
+    let n_cases = all.len();
+    let cross_ok = crate::common::privdrop::is_root();
     let parts = par::fork_reduce_ex(
-        all.len(),
+        if cross_ok { 2 * n_cases } else { n_cases },
         |c| (Tally { n: 0, nontrivial: 0, classes: BTreeMap::new(), counts: BTreeMap::new(), kept: vec![] }, base.join(format!("p{c}"))),
-        |acc: &mut (Tally, PathBuf), i| eval_case(i, &all[i], &acc.1, &mut acc.0),
+        |acc: &mut (Tally, PathBuf), i| eval_case(i % n_cases, &all[i % n_cases], &acc.1, &mut acc.0, i >= n_cases),
         |acc| json!({"n": acc.0.n, "nontrivial": acc.0.nontrivial, "classes": acc.0.classes, "counts": acc.0.counts, "kept": acc.0.kept.iter().map(|v| json!({"sig": v.signature, "text": v.text, "replay": v.replay})).collect::<Vec<_>>()}),
     );
     let mut t = Tally { n: 0, nontrivial: 0, classes: BTreeMap::new(), counts: BTreeMap::new(), kept: vec![] };
@@ -395,6 +466,7 @@ pub fn run(ctx: &Ctx) -> i32 {
                 }
             }
             Err((i, status)) => {
+                let i = i % n_cases;
                 let sig = "C16:crash";
                 *t.counts.entry(sig.into()).or_insert(0) += 1;
                 t.kept.push(Violation { signature: sig.into(), text: format!("{}: the process crashed (wait status {status}) while opening / repairing this file", all[i].label), replay: case_doc(i, &all[i]) });
@@ -409,6 +481,7 @@ pub fn run(ctx: &Ctx) -> i32 {
         ("samples", json!(samples)),
         ("expected_classes", json!(t.classes)),
         ("violation_counts_by_class", json!(t.counts)),
+        ("environments", json!({"same_user": "harness user creates the file, runs the daemon steps and the client steps", "cross_uid": if cross_ok { json!({"every case again with": "client steps in a child process", "client": crate::common::privdrop::describe()}) } else { json!("skipped: the harness is not running as root") }})),
         ("exhaustive", json!(true)),
         ("exhaustive_of", json!("the stated structured alphabet (not all byte contents)")),
     ]);
